@@ -201,6 +201,26 @@ class SimEnv(gym.Env):
         return [e for e in self.log if e["k"] == "reset"]
 
 
+class RescaledSimEnv(gym.Wrapper):
+    """SimEnv behind gymnasium's RescaleAction (a wrapper that CHANGES the action space: the routine sees [lo, hi], the scripted
+    environment its own box), with an outermost recording layer: every action the routine passes to the environment it was given
+    is kept in `outer_actions`. Harness attributes (log, steps(), listeners ...) are forwarded to the inner SimEnv."""
+
+    def __init__(self, inner, lo=-1.0, hi=1.0):
+        super().__init__(gym.wrappers.RescaleAction(inner, np.float32(lo), np.float32(hi)))
+        self.__dict__["inner"] = inner
+        self.__dict__["outer_actions"] = []
+
+    def step(self, action):
+        self.__dict__["outer_actions"].append(np.array(action, copy=True))
+        return self.env.step(action)
+
+    def __getattr__(self, name):
+        if name.startswith("_") or "inner" not in self.__dict__:
+            raise AttributeError(name)
+        return getattr(self.__dict__["inner"], name)
+
+
 def make_script(rng, n_steps, style=None, h=None):
     """Episode script covering about n_steps steps. Swarm: style first."""
     style = style or rng.choice(["long", "short", "one_step", "mixed", "mixed", "very_long"])
